@@ -396,8 +396,19 @@ def run(ctx):
                 else:
                     o.undecided("stripping of the working copy not recognised", ae)
             else:
-                ok_dom = all(cfg.dominates(par.stmt_of(rme[0]), par.stmt_of(u)) and cfg.dominates(par.stmt_of(rmn[0]), par.stmt_of(u)) for u in uses)
-                if ok_dom and cfg.dominates(par.stmt_of(rme[0]), par.stmt_of(rmn[0])):
+                def _site(call_):
+                    """the statement that stands for the removal: `if X: g.remove_..(X)` (skipped only when there is nothing to remove) counts as the removal"""
+                    st_ = par.stmt_of(call_)
+                    up_ = par.parent(st_)
+                    if isinstance(up_, ast.If) and any(st_ is b_ for b_ in up_.body) and call_.args and not any(
+                            isinstance(x_, ast.Call) and isinstance(x_.func, ast.Attribute) and x_.func.attr in ("remove_edges_from", "remove_nodes_from", "remove_edge", "remove_node") for b_ in up_.orelse for x_ in ast.walk(b_)):
+                        a0 = txt(call_.args[0])
+                        if txt(up_.test) in (a0, f"len({a0}) > 0", f"len({a0}) != 0", f"{a0} != []", f"len({a0})", f"len({a0}) >= 1"):
+                            return up_
+                    return st_
+                s_rme, s_rmn = _site(rme[0]), _site(rmn[0])
+                ok_dom = all(cfg.dominates(s_rme, par.stmt_of(u)) and cfg.dominates(s_rmn, par.stmt_of(u)) for u in uses)
+                if ok_dom and cfg.dominates(s_rme, s_rmn):
                     o.holds(ae, rme[0], f"`{g}` is stripped of non-internal edges, then of isolated vertices, before get_us / get_edge_combinations use it")
                 else:
                     o.violated(ae, rme[0], f"`{g}` is used before it has been stripped of non-internal edges and isolated vertices")
